@@ -448,7 +448,8 @@ class BlochSphereRotation(Gate):
 
     def __eq__(self, other: object) -> bool:
         if not isinstance(other, BlochSphereRotation):
-            return False
+            # Against a controlled or matrix gate, compare the operations, as those gates do when they are on the left.
+            return isinstance(other, Gate) and compare_gates(self, other)
 
         same_phase = abs(self.phase - other.phase) <= ATOL
 
